@@ -153,7 +153,12 @@ class Sym:
             elif k == "downcast":
                 e = ("variant", e, pr["variant"])
             elif k in ("index", "constindex"):
-                e = ("index", e, pr.get("offset") if k == "constindex" else None)
+                off = pr.get("offset") if k == "constindex" else None
+                if k == "index" and "local" in pr:
+                    ci = _const_int(self.local(pr["local"], depth + 1))
+                    if ci is not None:
+                        off = ci        # `x[0]` and the slice pattern `[first, ..]` read the same element
+                e = ("index", e, off)
             else:
                 e = ("proj", e, k)
         return e
